@@ -251,7 +251,7 @@ func genC03(t *rapid.T) *c03Case {
 			}
 			return rapid.IntRange(0, len(c.Stats)-1).Draw(t, li+"pos")
 		}
-		switch rapid.IntRange(0, 13).Draw(t, li+"kind") {
+		switch rapid.IntRange(0, 14).Draw(t, li+"kind") {
 		case 0: // ill-formed path
 			if j := pick(); j >= 0 {
 				c.Stats[j].Path = h.BStr(rapid.SampledFrom(c03BadPaths).Draw(t, li+"bad"))
@@ -326,6 +326,21 @@ func genC03(t *rapid.T) *c03Case {
 			if j := pick(); j >= 0 {
 				c.Script.Inject = append(c.Script.Inject, h.Inject{After: rapid.IntRange(0, 2*len(c.Stats)+4).Draw(t, li+"after"), Type: "DATA", ID: uint32(j), Data: rapid.SampledFrom([][]byte{nil, []byte("x"), make([]byte, 70000)}).Draw(t, li+"payload")})
 				c.Mutations = append(c.Mutations, fmt.Sprintf("data-anytime[%d]", j))
+			}
+		case 14: // a mode with more than one type bit: a directory that is also a symlink, a symlink that is also a directory
+			if j := pick(); j >= 0 {
+				m := os.FileMode(c.Stats[j].Mode)
+				switch {
+				case m.IsDir():
+					c.Stats[j].Mode |= uint32(os.ModeSymlink)
+					c.Stats[j].Link = h.BStr(rapid.SampledFrom([]string{"/outside/dir", "../../outside/dir", "../sibling"}).Draw(t, li+"mtl"))
+				case m&os.ModeSymlink != 0:
+					c.Stats[j].Mode |= uint32(os.ModeDir)
+				default:
+					c.Stats[j].Mode |= uint32(rapid.SampledFrom([]os.FileMode{os.ModeDir, os.ModeSymlink | os.ModeDir}).Draw(t, li+"mtb"))
+					c.Stats[j].Link = "/outside/dir"
+				}
+				c.Mutations = append(c.Mutations, fmt.Sprintf("multi-type-mode[%d]", j))
 			}
 		case 12: // early FIN / ERR / second marker
 			ty := rapid.SampledFrom([]string{"FIN", "ERR", "MARKER", "REQ"}).Draw(t, li+"ctl")
@@ -410,7 +425,9 @@ func c03Check(env *h.Env, c *c03Case) error {
 			return h.Infra(err)
 		}
 	}
-	for p, v := range map[string]string{"outside/secret": "top secret", "outside/dir/inner": "inner secret", "parent/sibling": "precious sibling"} {
+	for p, v := range map[string]string{"outside/secret": "top secret", "outside/dir/inner": "inner secret", "parent/sibling": "precious sibling",
+		// names the destination trees use too: a delete that goes through a link finds something
+		"outside/dir/a": "outside a", "outside/dir/b": "outside b", "outside/dir/c": "outside c", "outside/dir/ab": "outside ab", "outside/dir/d": "outside d", "outside/dir/l": "outside l"} {
 		if err := os.WriteFile(filepath.Join(jail, p), []byte(v), 0o600); err != nil {
 			return h.Infra(err)
 		}
@@ -438,6 +455,12 @@ func c03Check(env *h.Env, c *c03Case) error {
 	}
 	firstBad, unspecified := c03Classify(c)
 	hostile := firstBad >= 0 || len(c.Script.Inject) > 0 || c.Script.Tail == "eof"
+	for _, st := range c.Stats {
+		// a mode with several type bits is no entry type at all: verdict open, containment only
+		if tb := os.FileMode(st.Mode) & os.ModeType; tb&(tb-1) != 0 && tb != os.ModeDevice|os.ModeCharDevice {
+			hostile = true
+		}
+	}
 	outPointing := false
 	for _, n := range c.Dst.Nodes {
 		if n.Kind == h.KSymlink && (strings.Contains(n.Target, "outside") || strings.Contains(n.Target, "..") || strings.HasPrefix(n.Target, "/")) {
